@@ -4,11 +4,12 @@ from common_tb import COMMON_TB
 
 
 CFG = dict(
-    id="C05", tie="Tie.C05", n_quick=200, n_thorough=2400, thorough_seeds=3, gen_timeout=2400,
+    id="C05", tie="Tie.C05", n_quick=200, n_thorough=1200, thorough_seeds=3, gen_timeout=2400,
     rule="one case = one schedule run on a fresh real store (temp dir) from a single goroutine: 1-3 write-only "
          "transactions populate a 10-key universe with shared prefixes (plain, deleted, expired entries), then 2-4 "
          "read-write programs of 2-12 (every fifth case: up to 24) operations are advanced one operation at a time in a "
-         "random interleaving with each other and with write-only committers (10% of the steps); operations: "
+         "random interleaving with each other and with write-only committers (10% of the steps, half of them AsyncCommit "
+         "so that the indexer may lag when the next commit validates); operations: "
          "GetWithFilters (filter lists ed/none/d/e/de, existing and missing keys), GetWithPrefixAndFilters (with and without "
          "exclusion key), Set/SetTransient with deleted/expired metadata, invalid keys, Delete, NewKeyReader (seek/end "
          "bounds between and beyond the keys, inclusive flags, prefix, descending, filters, offset 0-3, over-long seek), "
